@@ -176,12 +176,15 @@ def defects(root, t):
     out = set()
 
     def walk(n, is_root):
+        """returns (keys beneath, height)"""
         if n.items is not None:
-            keys = [k for k, _ in n.items]
+            keys, h = [k for k, _ in n.items], 0
         else:
-            keys = []
+            keys, h = [], 0
             for k in n.kids:
-                keys += walk(k, False)
+                ks, hk = walk(k, False)
+                keys += ks
+                h = max(h, hk + 1)
         if is_root:
             if n.lim is not None:
                 out.add("root-limits")
@@ -194,9 +197,11 @@ def defects(root, t):
                 if n.lim[0] != keys[0]:
                     out.add("lower-wrong")
                 if n.lim[1] != keys[-1]:
-                    out.add("upper-too-small" if keys[0] <= n.lim[1] < keys[-1] else "upper-wrong")
-        return keys
-    keys = walk(root, True)
+                    # the class of finding F1: a node at least two levels above the leaves whose upper limit is a
+                    # key of its own subtree smaller than the maximum (left behind by a split below its last kid)
+                    out.add("upper-too-small" if h >= 2 and keys[0] <= n.lim[1] < keys[-1] else "upper-wrong")
+        return keys, h
+    keys, _ = walk(root, True)
     if any(not (a < b) for a, b in zip(keys, keys[1:])):
         out.add("unsorted")
     return out
@@ -433,14 +438,15 @@ def judge(case, impl, model, spec, wf):
             except Exception:
                 ds = {"unparsed"}
             agrees = i < len(msteps) and msteps[i] == isteps[i]
-            if code == 3 and ds == {"upper-too-small"} and agrees:
+            if code == 3 and ds == {"upper-too-small"}:
                 if tolerated_stale:
                     continue
                 if op[0] in "ia" or (case.get("every", 1) > 1 and ins_since_dump):
                     tolerated_stale = True
                     case.setdefault("known_hits", []).append(
                         {"step": i, "why": "an ancestor's /Limits upper bound is smaller than the largest key beneath it",
-                         "signature": "C18:wf-limits:%s:upper-too-small:model-agrees" % (op[0] if op[0] in "ia" else ins_since_dump)})
+                         "signature": "C18:wf-limits:%s:upper-too-small:%s" % (op[0] if op[0] in "ia" else ins_since_dump,
+                                                                                "model-agrees" if agrees else "model-differs")})
                     ins_since_dump = None
                     continue
             names = {1: "/Limits on the root", 2: "keys not strictly ascending", 3: "empty non-root node or wrong /Limits",
